@@ -199,6 +199,13 @@ fn parse_eq_delegate_by(
         return Ok(SpanOpt(Delegate::ByRef(RefDelegate::AsRef), span));
     }
 
+    if input.peek(syn::token::SelfType) {
+        // `Self` is a keyword, not a `syn::Ident`
+        let _: syn::token::SelfType = input.parse()?;
+
+        return Ok(SpanOpt(Delegate::BySelf, span));
+    }
+
     let ident = input.parse::<syn::Ident>()?;
 
     Ok(SpanOpt(
